@@ -21,6 +21,7 @@ EXPLANATION = (
     "parameter whose default is None is never subscripted without a None test or a normalisation in the constructor; (R5) complement "
     "removal drops `total - x` only under a *strict* comparison with x (a value equal to half the total is not its own complement).  "
     " (R6) with multiplicities the products x*g and the integer product helper are bounded by max(total, numbers), and (R1, extended) the bit expansion of the multiplicity is sized from max_multiplicity (integer_ub), not from the product bound. "
+    " (R7) values read from the solver are rounded, never truncated (int() / weight_type() on a raw value) and binaries are read by a threshold, never by == 1; data in equality rows is converted to Python numbers; (R5, extended) the complement total - x is removed only under max_multiplicity == 1; (R3, extended) the k-range grows by t - 1 per partition constraint with t parts. "
     "NOT decided: minimality; that complement removal preserves the optimum."
 )
 DECIDED = ["formulation of both models", "search protocol and range of MinGenSet", "documented None defaults are usable", "complement removal is strict"]
